@@ -47,7 +47,7 @@ def cb_corpus():
               "vars": [anyv("W", "[a-z]+", "any_tok"), anyv("N", "[0-9]+", "any_res"), anyv("M", "-+", "any_filter"), anyv("Q", "=+", "any_fr"),
                        var("Alt", [])]})
     D.append({"id": "cb5", "utf8": False, "logos": E1, "tags": ["role:cb"], "subs": [], "skips": [A("skip", list(b" "), cbk="skip_res_skip")],
-              "vars": [var("W", [A("regex", list(b"[a-z]+"), cbk="val_bump")], "u32"), var("H", [A("regex", list(rb"[\x80-\xff]"), cbk="unit_bool")])]})
+              "vars": [var("W", [A("regex", list(b"[a-z]+"), cbk="val_bump")], "u32"), var("H", [A("regex", list(rb"[\x80-\xff]+"), cbk="unit_bool")])]})
     D.append({"id": "cb6", "utf8": True, "logos": E1, "tags": ["role:cb"], "subs": [], "skips": [],
               "vars": [var("Ws", [A("regex", " +", cbk="unit_skip")]), var("W", [A("regex", "[a-z]+", cbk="unit_unit")]), var("N", [A("regex", "[0-9]+", cbk="val_t")], "u32")]})
     D.append({"id": "cb6t", "utf8": True, "logos": E1, "tags": ["role:cb", "twin:cb6"], "subs": [], "skips": [A("skip", " +")],
@@ -90,7 +90,10 @@ def cb_run(tier, seed, cfgs):
             raise ToolError("callback definition rejected: %s %s" % (m["id"], m["errors"]))
         td["errcb"] = any("callback" in l for l in m["def"]["logos"])
         td["twin"] = 0
-        cs = choose_chars(td, m, nchars, rng)
+        # every pattern of the definition needs a character of its own in the alphabet (plus one multi-byte and one
+        # "other" character): a callback kind whose pattern never matches is not exercised at all
+        n_pats = len(m["def"]["skips"]) + sum(len(v["attrs"]) for v in m["def"]["vars"])
+        cs = choose_chars(td, m, min(7, max(nchars, n_pats + 2)), rng)
         td["chars"] = [c[0] for c in cs]
         char_bytes[td["idx"]] = [c[1] for c in cs]
     for td, m in zip(tla_defs, metas):
@@ -122,6 +125,20 @@ def cb_run(tier, seed, cfgs):
     log("[cb] TLC %d distinct states, %d behaviours, %.1fs" % (res["distinct"], len(runs), res["wall"]))
     bins = build_subjects(metas, cfgs, "cb")
     meta_by_idx = {m["idx"]: m for m in metas}
+    # vacuity guard: every variant name of every callback definition must occur in some expected item (or the
+    # definition's callbacks skip / fail always), otherwise a callback kind was never exercised
+    seen_names = {}
+    for r in runs:
+        for it in r["items"]:
+            if it[0] == "ok":
+                seen_names.setdefault(r["d"], set()).add(it[1].split("(")[0])
+    for td, m in zip(tla_defs, metas):
+        if m["panic"] or not td.get("chars"):
+            continue
+        want = {v["name"] for v in m["def"]["vars"] if v["attrs"] and not any(a.get("cbk") in ("unit_skip", "unit_res_skip", "unit_bool_and") for a in v["attrs"])}
+        missing = want - seen_names.get(td["idx"], set())
+        if missing:
+            raise ToolError("Callbacks.tla: no enumerated behaviour of %s ever emits %s (alphabet %s)" % (m["id"], sorted(missing), td["chars"]))
     reqs = []
     for r in runs:
         data = []
